@@ -279,8 +279,19 @@ func (app *App) addPrefixToRoute(prefix string, route *Route) *Route {
 	if !app.config.StrictRouting && len(prettyPath) > 1 {
 		prettyPath = utils.TrimRight(prettyPath, '/')
 	}
+	// The route keeps the custom constraints it was registered with in its own (mounted) app;
+	// those of this app apply to the parameters of the prefix
+	customConstraints := app.customConstraints
+	for _, seg := range route.routeParser.segs {
+		for _, c := range seg.Constraints {
+			if len(c.customConstraints) > 0 {
+				customConstraints = append(append([]CustomConstraint{}, c.customConstraints...), app.customConstraints...)
+				break
+			}
+		}
+	}
 	// Case-sensitive routing: the constant parts to lowercase, constraints keep their spelling
-	route.routeParser = parseRouteFold(prettyPath, !app.config.CaseSensitive, app.customConstraints...)
+	route.routeParser = parseRouteFold(prettyPath, !app.config.CaseSensitive, customConstraints...)
 	if !app.config.CaseSensitive {
 		prettyPath = utils.ToLower(prettyPath)
 	}
@@ -288,7 +299,7 @@ func (app *App) addPrefixToRoute(prefix string, route *Route) *Route {
 	route.Path = prefixedPath
 	route.path = RemoveEscapeChar(prettyPath)
 	// the parameters of the prefix belong to the route as well
-	route.Params = parseRoute(prefixedPath, app.customConstraints...).params
+	route.Params = parseRoute(prefixedPath, customConstraints...).params
 	// same flags as a route registered directly under the prefixed path (mounting at "/" keeps "/" and "/*")
 	route.root = route.path == "/"
 	route.star = prettyPath == "/*"
